@@ -184,6 +184,17 @@ def host(kind: str):
         b0.add_ops([inner, TestTermOp(successors=[b1])])
         b1.add_op(TestTermOp())
         return ModuleOp([TestOp(regions=[Region([b0, b1])])]), [], [b1, ib1, ib0]
+    if kind == "graph-forward":  # module body (graph region): a use textually BEFORE the definition of the hinted value
+        d1, d2 = TestOp(result_types=[i32]), TestOp(result_types=[i32])
+        u = TestOp(operands=[d1.results[0], d2.results[0]], result_types=[i32])
+        return ModuleOp([u, d1, d2, TestOp(operands=[u.results[0]])]), [d1.results[0], d2.results[0], u.results[0]], []
+    if kind == "cfg-forward":    # the block that uses a value is listed BEFORE the block that defines (and dominates) it
+        b0, b1, b2 = Block(), Block(), Block(arg_types=[i32])
+        d = TestOp(result_types=[i32])
+        b0.add_op(TestTermOp(successors=[b2]))
+        b1.add_ops([TestOp(operands=[d.results[0], b2.args[0]]), TestTermOp()])
+        b2.add_ops([d, TestTermOp(successors=[b1])])
+        return ModuleOp([TestOp(regions=[Region([b0, b1, b2])])]), [d.results[0], b2.args[0], d.results[0]], [b0, b1, b2]
     raise AssertionError(kind)
 
 
@@ -222,7 +233,7 @@ def _hints_shard(arg) -> Stats:
     H2 = accepted_hints(maxlen2)
     st.extra["accepted_hints"] = len(H1)
     case = 0
-    for kind in ("flat", "nested", "isolated", "cfg", "cfg-nested"):
+    for kind in ("flat", "nested", "isolated", "cfg", "cfg-nested", "graph-forward", "cfg-forward"):
         _m, vals, blks = host(kind)
         if vals:
             for third in (None, "a"):
@@ -232,7 +243,9 @@ def _hints_shard(arg) -> Stats:
                         if case % nshards != shard:
                             continue
                         m, vals, _ = host(kind)
-                        vals[0].name_hint, vals[1].name_hint, vals[2].name_hint = h0, h1, third
+                        vals[0].name_hint, vals[1].name_hint = h0, h1
+                        if vals[2] is not vals[0]:
+                            vals[2].name_hint = third
                         stored = [v.name_hint for v in vals]
                         cls = cause_class(stored)
                         st.states += 1
@@ -261,6 +274,59 @@ def _hints_shard(arg) -> Stats:
                         if cls != "plain-hints":
                             st.nontrivial += 1
                         roundtrip_light(st, m, {"host": kind, "block_hints": [third, h0, h1]}, f"block-hints|{cls}", check_clone=True)
+    return st
+
+
+def _attr_shard(arg) -> Stats:
+    """every value of the builtin attribute boundary pool (mc/attrgen.py) carried as a discardable attribute and as a
+    property of an op inside a verified module"""
+    shard, nshards, seed = arg
+    from xdsl.dialects.builtin import ModuleOp
+    from xdsl.dialects.test import TestOp
+    from xdsl.ir import TypeAttribute
+    from mc import attrgen
+
+    st = Stats()
+    descs = attrgen.boundary_pool()
+    for fam in attrgen.families("quick"):
+        if fam.name in ("f32", "f64", "dense", "dense_array", "string", "symbol", "containers"):
+            descs += list(fam)[: 400]
+    # whole-number floats of every decimal length (the printer switches between decimal, exponent and hex forms)
+    from xdsl.dialects.builtin import DenseIntOrFPElementsAttr, FloatAttr, TensorType, f32, f64
+    extra = []
+    for k in range(1, 20):
+        for v in (float(10 ** k), float(10 ** k + 1), float(int("1234567890123456789"[:k]))):
+            for t in (f64, f32):
+                try:
+                    extra.append(FloatAttr(v, t))
+                    extra.append(FloatAttr(-v, t))
+                    extra.append(DenseIntOrFPElementsAttr.from_list(TensorType(t, [2]), [v, 1.5]))
+                except Exception:  # noqa: BLE001
+                    pass
+    items = [("desc", d) for d in descs] + [("attr", a) for a in extra]
+    for i, (kind, d) in enumerate(items):
+        if i % nshards != shard:
+            continue
+        try:
+            a = attrgen.build(d) if kind == "desc" else d
+            if kind == "attr":
+                d = str(a)
+        except Exception:  # noqa: BLE001
+            continue
+        for where in ("attributes", "properties"):
+            try:
+                op = TestOp(result_types=[a] if isinstance(a, TypeAttribute) and where == "attributes" else [],
+                            **{where: {"a" if where == "attributes" else "prop1": a}})
+                m = ModuleOp([op])
+                m.verify()
+            except Exception:  # noqa: BLE001
+                st.bump("attr_module_does_not_verify")
+                continue
+            st.states += 1
+            st.transitions += 1
+            st.nontrivial += 1
+            st.outcomes[f"attr-pool:{where}"] += 1
+            roundtrip_light(st, m, {"attr_desc": d, "where": where}, f"attr-pool|{type(a).__name__}", check_clone=False)
     return st
 
 
@@ -326,11 +392,13 @@ def run(ctx):
         ctx.stats.extra["accepted_hints"] = ah
     for _, st in pmap(_struct_shard, [(bounds, i, n, ctx.seed) for i in range(n)]):
         ctx.merge(st)
+    for _, st in pmap(_attr_shard, [(i, n, ctx.seed) for i in range(n)]):
+        ctx.merge(st)
     for _, st in pmap(_corpus_shard, [(i, n, ctx.seed) for i in range(n)]):
         ctx.merge(st)
     ctx.stats.sample({"host": "flat", "value_hints": ["a", "a", None]})
     ctx.bounds = {"generated": bounds, "hint_alphabet": list(HINT_ALPHABET), "hint_max_len": [maxlen, maxlen2],
-                  "hint_hosts": ["flat", "nested", "isolated", "cfg", "cfg-nested"], "corpus": "all chunks of tests/**/*.mlir"}
+                  "hint_hosts": ["flat", "nested", "isolated", "cfg", "cfg-nested", "graph-forward", "cfg-forward"], "corpus": "all chunks of tests/**/*.mlir"}
     ctx.rule = ("(a) five hint-host modules x every ordered pair of accepted hints (length bounds above, plus collision-forcing extras) "
                 "on two values / two blocks x third hint in {None,'a'}; every enumerated module (all wirings) without hints; "
                 "(b) every corpus chunk that parses+verifies; states = verified modules, non-trivial = hint assignment that "
@@ -353,6 +421,15 @@ def replay(rep) -> bool:
         if m is None:
             return True
         roundtrip(st, m, w, "replay")
+    elif "attr_desc" in w:
+        from mc import attrgen
+        if isinstance(w["attr_desc"], str):
+            from xdsl.parser import Parser as _P
+            a = _P(light_ctx(), w["attr_desc"]).parse_attribute()
+        else:
+            a = attrgen.build(w["attr_desc"])
+        where = w["where"]
+        roundtrip_light(st, ModuleOp([TestOp(**{where: {"a" if where == "attributes" else "prop1": a}})]), w, "replay", False)
     elif "host" in w:
         m, vals, blks = host(w["host"])
         if w.get("value_hints"):
